@@ -338,6 +338,7 @@ def run(repo, rep):
     rep.check(len(hit) == 1 and norm(hit[0].test) in ("tens_cached.scale_compression_config == scc", "scc == tens_cached.scale_compression_config"), "C09-e", f"{WCF}:encode_weight_and_scale_tensor",
               "cached scale records are reused only when the whole scale key is equal", norm(hit[0].test) if hit else "")
     rep.floor("C09-e", 6)
+    rule_round5(repo, rep)
     rep.clause("C09-f", "a scale register write is elided only when both emitted words (multiplier payload and shift parameter) equal the last write [rule shared with C06-e]")
     from . import c06
 
@@ -356,3 +357,69 @@ def run(repo, rep):
                 rep.check(len(idxs) == 1, "C09-c", "ethosu/vela/tflite_graph_optimiser.py:convert_squared_difference", f"`{str(norm(c_))[:70]}` pairs the shift and multiplier of one input",
                           f"mixes inputs {sorted(idxs)}: the pair is off by a power of two whenever the two input scales differ")
     rep.check(n_es >= 2, "C09-c", "ethosu/vela/tflite_graph_optimiser.py:convert_squared_difference", "per-input explicit scalings found", str(n_es))
+
+
+def rule_round5(repo, rep):
+    """(g) three places where a derivation silently changes its value: a scale helper memoised by value although its precision follows
+    the argument type; the LSTM hidden-state multiplier taken from another quantisation record; the MEAN divisor's pre-shift."""
+    import math
+
+    rep.clause("C09-g", "scale derivation helpers are not memoised (np.float32(x), np.float64(x) and float(x) hash equal but are derived in different precision); the LSTM output-state "
+               "multiplier is 2^-30 / hidden scale; the MEAN divisor is pre-shifted by floor(log2(window)) as in the reference")
+    n = 0
+    for mname in ("scaling", "fp_math", "numeric_util"):
+        m = repo.mod(mname)
+        for q, fn in m.functions.items():
+            n += 1
+            deco = [str(norm(d)) for d in fn.decorator_list]
+            rep.check(not any("cache" in d for d in deco), "C09-g", f"ethosu/vela/{mname}.py:{q}", f"{q} is evaluated on every call (no memo decorator)",
+                      f"decorated with {deco}: equal-valued arguments of different floating-point type share one cached result, so the pair derived in float32 for a register is handed to a caller "
+                      "that needs the double-precision derivation (or the other way round), depending on call order; the cache also outlives the compilation")
+    ls = repo.mod("lstm").func("Lstm.calculate_output_state")
+    calls = [c for c in ast.walk(ls) if isinstance(c, ast.Call) and call_name(c) == "elementwise_mul_scale" and len(c.args) == 3]
+    if len(calls) != 1:
+        raise AnalysisError("Lstm.calculate_output_state: elementwise_mul_scale call not found")
+    sa = {str(norm(s_.targets[0])): s_.value for s_ in ast.walk(ls) if isinstance(s_, ast.Assign) and len(s_.targets) == 1 and isinstance(s_.targets[0], ast.Name)}
+    arg = calls[0].args[2]
+    while isinstance(arg, ast.Call) and call_name(arg) in ("np.double", "float", "np.float64") and arg.args:
+        arg = arg.args[0]
+    if isinstance(arg, ast.Name) and arg.id in sa:
+        arg = sa[arg.id]
+    rep.check(str(norm(arg)) == "self.hidden_quantization.scale_f32", "C09-g", "ethosu/vela/lstm.py:Lstm.calculate_output_state",
+              "the hidden-state multiplier divides by the hidden scale (intermediate #4), as the reference's effective_hidden_scale does",
+              f"divides by `{str(norm(arg))}`: for an LSTM whose hidden scale differs from the output-state scale (projection) the explicit pair denotes another value")
+    go = repo.mod("tflite_graph_optimiser")
+    cm = go.func("convert_mean_to_depthwise_conv")
+    sh = sorted((s_ for s_ in ast.walk(cm) if isinstance(s_, ast.Assign) and str(norm(s_.targets[0])) == "shift"), key=lambda s_: s_.lineno)
+    if not sh:
+        raise AnalysisError("convert_mean_to_depthwise_conv: divisor pre-shift not found")
+    v = sh[0].value
+    form = None
+    if isinstance(v, ast.Call) and call_name(v) == "round_down_log2" and len(v.args) == 1:
+        form = ("helper", str(norm(v.args[0])))
+    elif isinstance(v, ast.BinOp) and isinstance(v.op, ast.Sub) and str(norm(v.right)) == "1" and isinstance(v.left, ast.Call) and isinstance(v.left.func, ast.Attribute) and v.left.func.attr == "bit_length":
+        form = ("bit_length", str(norm(v.left.func.value)))
+    rep.check(form is not None and form[1] == "num_elements_in_axis", "C09-g", "ethosu/vela/tflite_graph_optimiser.py:convert_mean_to_depthwise_conv",
+              "the pre-shift of the MEAN divisor is floor(log2(number of reduced elements)) (63 - CountLeadingZeros in the reference)",
+              f"shift = `{str(norm(v))}`: for windows that are no power of two the shifted multiplier exceeds int32 (wraps negative) or is one bit off the reference derivation")
+    # the helper itself: floor(log2 v) on probes
+    from ..absint import Interp, Unknown
+
+    def lift(fn_):
+        def ext(interp, args, kwargs, node):
+            if len(args) == 1 and isinstance(args[0], (int, float)) and not kwargs:
+                return float(fn_(args[0]))
+            return Unknown("math(?)")
+        return ext
+
+    ex = {"np.log2": lift(math.log2), "numpy.log2": lift(math.log2), "math.log2": lift(math.log2), "math.floor": lift(math.floor), "math.ceil": lift(math.ceil)}
+    it = Interp(repo, repo.mod("numeric_util"), externs=ex)
+    wrong = []
+    for v_ in (1, 2, 3, 4, 5, 7, 8, 9, 30, 49, 64, 65, 1023, 1024, 65535):
+        ps = list(it.run("round_down_log2", lambda v_=v_: ([v_], {})))
+        if len(ps) != 1 or ps[0].kind != "return" or not isinstance(ps[0].value, (int, float)):
+            raise AnalysisError(f"round_down_log2({v_}) not evaluable")
+        if int(ps[0].value) != v_.bit_length() - 1:
+            wrong.append((v_, ps[0].value))
+    rep.check(not wrong, "C09-g", "ethosu/vela/numeric_util.py:round_down_log2", "round_down_log2(v) = floor(log2 v) on 15 probes", str(wrong[:3]))
+    rep.floor("C09-g", 20)
